@@ -47,11 +47,13 @@ def pick(tier, seed):
     cfgs = all_configs()
     if tier == "thorough":
         return cfgs
-    # quick: every single feature, the empty and the full set, and a seed-chosen quarter of the pairs
+    # quick: every single feature, the empty and the full set in both bases; every pair in the std
+    # base (a pair-specific build break must not depend on the seed), a seed-chosen quarter of the
+    # pairs in the libm base
     out = []
     for c in cfgs:
         base, fs = c
-        if len(fs) != 2:
+        if len(fs) != 2 or base == "std":
             out.append(c)
             continue
         h = hashlib.sha1(f"{seed}|{base}|{'+'.join(fs)}".encode()).digest()
@@ -262,7 +264,7 @@ def run(prop, tier, seed, rundir, verif, log):
         "tool": "cargo build (stable toolchain) + cfgprobe",
         "evaluations": len(results) + len(memo),
         "distinct_nontrivial": len({c for c in results if len(c[1]) >= 1}),
-        "rule": f"{len(results)} of the 214 configurations {{std,libm}} x (none, 14 singles, 91 pairs, full set) built with the stable toolchain from /repo's working tree and probed ({'all of them' if tier == 'thorough' else 'none + singles + full + a seed-chosen quarter of the pairs'}); {len(memo)} further builds to minimise failing sets; distinct = configurations, non-trivial = at least one optional feature",
+        "rule": f"{len(results)} of the 214 configurations {{std,libm}} x (none, 14 singles, 91 pairs, full set) built with the stable toolchain from /repo's working tree and probed ({'all of them' if tier == 'thorough' else 'none + singles + full in both bases, all 91 pairs with std, a seed-chosen quarter of the pairs with libm'}); {len(memo)} further builds to minimise failing sets; distinct = configurations, non-trivial = at least one optional feature",
         "configurations_built": len(results),
         "configurations_ok": n_ok,
         "configurations_failing": len(failing),
